@@ -1,17 +1,17 @@
 /-
-  Oracle for C04.  Reads the harness' stream (see harness/cmd/c04/main.go) and, per case,
+  Oracle for C04.  Reads the harness' stream (see harness/cmd/c04/main.go): a net of P processors
+  joined by B bonds (bond b: output (pp, op) -> inputs (cp_j, ip_j)).  Per case it
 
-  * replays every G line on the abstract simulator protocol `BMV.Hs.Isa.step`, with the schedule
-    read off the real run (an agent "wants" in a tick iff its pc before the step is at an IO
-    instruction of the bond), and prints the model's observables
-        g v=<valid> d=<data index> r=<recv,..> df=<deferred,..> ps=<producer completed> cs=<captured,..>
+  * replays every G line on one abstract simulator protocol `BMV.Hs.Isa.step` PER BOND, with the
+    schedule read off the real run (an agent "wants" in a tick iff its pc before the step is at an IO
+    instruction of that bond and it is not inside a simulated latency), and prints the observables
+        g v<b>=<valid> r<b>=<recv,..> ps<b>=<producer completed> cs<b>=<captured,..> n<b>=<#sent> ...
   * builds the same net out of `BMV.Rtl.cycle` (one per processor, wired combinationally as
-    Write_verilog_main wires them), runs it for as many clocks, replays it on the abstract hardware
-    protocol `BMV.Hs.Rtl.step` and reports the first disagreement and the delivered streams:
-        RT ok clocks=<n> written=<values> | RT mismatch clock=<t> <what>
-        RR <i> <values captured by consumer i in the hardware net>
+    Write_verilog_main wires bonds), runs it for as many clocks, replays every bond on the abstract
+    hardware protocol `BMV.Hs.Rtl.step` and reports the first disagreement and the delivered streams:
+        RT ok clocks=<n> | RT mismatch clock=<t> bond=<b> <what> ;  RW <b> <written> ; RR <b> <j> <captured>
   * does the same with the EMITTED Verilog of every processor (M i H lines) executed by BMV.Vlog:
-        VT ok clocks=<n> | VT mismatch … | VT unavailable … ;  VW <written> ; VR <i> <captured>
+        VT ok clocks=<n> | VT mismatch … | VT unavailable … ;  VW <b> <written> ; VR <b> <j> <captured>
 -/
 import BMV.Hs
 import BMV.Rtl
@@ -31,20 +31,21 @@ def parseArch (fs : List String) : Option Arch :=
            ops := if opl = "" then [] else opl.splitOn "," }
   | _ => none
 
-/-- the emitted Verilog of one processor, elaborated, with the indices of the observed signals -/
+/-- the emitted Verilog of one processor, elaborated, with the indices of the observed signals
+    (per port where the processor has ports) -/
 structure Hw where
   d : Design
   clk : Nat
   reset : Nat
   pc : Nat
   regs : List Nat
-  auxo : Option Nat
-  oval : Option Nat
-  irecv : Option Nat
   waitsm : Option Nat
-  inp : Option Nat
-  ival : Option Nat
-  orecv : Option Nat
+  auxo : List (Option Nat)
+  oval : List (Option Nat)
+  orecv : List (Option Nat)
+  irecv : List (Option Nat)
+  inp : List (Option Nat)
+  ival : List (Option Nat)
 deriving Inhabited
 
 def mkHw (a : Arch) (line : String) : R Hw := do
@@ -55,23 +56,37 @@ def mkHw (a : Arch) (line : String) : R Hw := do
   let p := "p0_instance."
   let pc ← d.sigIdx (p ++ "_pc")
   let regs ← (List.range (2 ^ a.r)).mapM fun k => d.sigIdx (p ++ s!"_r{k}")
-  pure { d, clk, reset, pc, regs, auxo := d.sigIdx? (p ++ "_auxo0"), oval := d.sigIdx? (p ++ "o0_val"),
-         irecv := d.sigIdx? (p ++ "i0_recv"), waitsm := d.sigIdx? (p ++ "waitsm"),
-         inp := d.sigIdx? "i0", ival := d.sigIdx? "i0_valid", orecv := d.sigIdx? "o0_received" }
+  pure { d, clk, reset, pc, regs, waitsm := d.sigIdx? (p ++ "waitsm"),
+         auxo := (List.range a.m).map fun j => d.sigIdx? (p ++ s!"_auxo{j}"),
+         oval := (List.range a.m).map fun j => d.sigIdx? (p ++ s!"o{j}_val"),
+         orecv := (List.range a.m).map fun j => d.sigIdx? s!"o{j}_received",
+         irecv := (List.range a.n).map fun j => d.sigIdx? (p ++ s!"i{j}_recv"),
+         inp := (List.range a.n).map fun j => d.sigIdx? s!"i{j}",
+         ival := (List.range a.n).map fun j => d.sigIdx? s!"i{j}_valid" }
 
 structure PProc where
   arch : Arch := { rsize := 8, r := 1, n := 0, m := 0, l := 0, o := 1, ops := [] }
   prog : List Bits := []
-  io : List Nat := []
   hw : Option Hw := none
   hwErr : String := "no H line"
 
 instance : Inhabited PProc := ⟨{}⟩
 
+/-- processor number of the environment's ends (BondMachine inputs / outputs) -/
+def envP : Nat := 1000000
+
+structure BondD where
+  pp : Nat := 0
+  op : Nat := 0
+  cons : List (Nat × Nat) := []
+  ioP : List Nat := []
+  ioC : List (List Nat) := []       -- per consumer, in the order of `cons`
+deriving Inhabited
+
 structure St where
-  k : Nat := 0
   procs : Array PProc := #[]
-  isa : Hs.Isa.St := {}
+  bonds : Array BondD := #[]
+  isa : Array Hs.Isa.St := #[]
   ticks : Nat := 0
 
 def joinN (l : List Nat) : String := ",".intercalate (l.map toString)
@@ -82,117 +97,164 @@ def setProc (st : St) (i : Nat) (f : PProc → PProc) : St :=
   let ps := if i < st.procs.size then st.procs else st.procs ++ Array.replicate (i + 1 - st.procs.size) default
   { st with procs := ps.modify i f }
 
+def setBond (st : St) (b : Nat) (f : BondD → BondD) : St :=
+  let bs := if b < st.bonds.size then st.bonds else st.bonds ++ Array.replicate (b + 1 - st.bonds.size) default
+  { st with bonds := bs.modify b f }
+
 /-- destination register of the i2rw at address pc (second field after the opcode) -/
 def destReg (p : PProc) (pc : Nat) : Nat :=
   match p.prog[pc]? with
   | some w => getId ((w.drop p.arch.opBits).take p.arch.r)
   | none => 0
 
+/-- the bond (if any) that drives input `j` of processor `i` / that output `o` of processor `i` drives -/
+def bondOfInput (st : St) (i j : Nat) : Option BondD := st.bonds.toList.find? fun b => b.cons.contains (i, j)
+def bondOfOutput (st : St) (i o : Nat) : Option BondD := st.bonds.toList.find? fun b => b.pp == i && b.op == o
+
 /-- the hardware net: processors' `Rtl.cycle`, combinational wiring; returns the report lines -/
 def rtlNet (st : St) : List String := Id.run do
-  let k := st.k
-  let p0 := st.procs[0]!
-  let mut ps : Array RtlState := (Array.range (k + 1)).map fun i => Rtl.reset (st.procs[i]!).arch
-  let mut hs : Hs.Rtl.St := Hs.Rtl.init k
-  let mut written : List Nat := []
-  let mut got : Array (List Nat) := Array.replicate (k + 1) []
+  let P := st.procs.size
+  let B := st.bonds.size
+  let mut ps : Array RtlState := (Array.range P).map fun i => Rtl.reset (st.procs[i]!).arch
+  let mut hs : Array Hs.Rtl.St := st.bonds.map fun b => Hs.Rtl.init b.cons.length
+  let mut written : Array (List Nat) := Array.replicate B []
+  let mut got : Array (Array (List Nat)) := st.bonds.map fun b => Array.replicate b.cons.length []
   for t in [0:st.ticks] do
-    let prod := ps[0]!
-    let valid := prod.oVal.getD 0 false
-    let data := prod.auxo.getD 0 0
-    let received := k > 0 && (List.range k).all fun i => (ps[i + 1]!).iRecv.getD 0 false
-    -- schedule read off the net
-    let wantP := p0.io.contains prod.pc
-    let wantC := (List.range k).map fun i => (st.procs[i + 1]!).io.contains (ps[i + 1]!).pc
-    -- step the net
-    let prod' := Rtl.cycle p0.arch p0.prog prod { outRecv := [received] }
-    let mut ps' := ps.set! 0 prod'
-    for i in [0:k] do
-      let c := ps[i + 1]!
-      let pr := st.procs[i + 1]!
-      let c' := Rtl.cycle pr.arch pr.prog c { inputs := [data], inValid := [valid] }
-      ps' := ps'.set! (i + 1) c'
-      if pr.io.contains c.pc && c'.pc != c.pc then
-        got := got.modify (i + 1) (· ++ [c'.regs.getD (destReg pr c.pc) 0])
-    if wantP && prod'.pc != prod.pc then written := written ++ [prod'.auxo.getD 0 0]
-    -- step the abstract protocol with that schedule
-    let hs' := Hs.Rtl.step hs { p := wantP, c := wantC }
-    -- compare observables
-    let nv := prod'.oVal.getD 0 false
-    let nrecv := (List.range k).map fun i => (ps'[i + 1]!).iRecv.getD 0 false
-    let ngot := (List.range k).map fun i => (got[i + 1]!).length
-    if nv != hs'.oVal || prod'.waitsm != hs'.waitsm || nrecv != hs'.cs.map (·.recv) ||
-       written.length != hs'.sent.length || ngot != hs'.cs.map (·.got.length) then
-      return [s!"RT mismatch clock={t} net: v={nv} w={prod'.waitsm} r={joinB nrecv} sent={written.length} got={joinN ngot}" ++
-              s!" | abstract: v={hs'.oVal} w={hs'.waitsm} r={joinB (hs'.cs.map (·.recv))} sent={hs'.sent.length} got={joinN (hs'.cs.map (·.got.length))}"]
+    -- step every processor on the wires as they are before the edge
+    let mut ps' := ps
+    for i in [0:P] do
+      let pr := st.procs[i]!
+      let inputs := (List.range pr.arch.n).map fun j =>
+        match bondOfInput st i j with
+        | some b => (ps[b.pp]!).auxo.getD b.op 0
+        | none => 0
+      let inValid := (List.range pr.arch.n).map fun j =>
+        match bondOfInput st i j with
+        | some b => (ps[b.pp]!).oVal.getD b.op false
+        | none => false
+      let outRecv := (List.range pr.arch.m).map fun o =>
+        match bondOfOutput st i o with
+        | some b => !b.cons.isEmpty && b.cons.all fun (c, ip) => (ps[c]!).iRecv.getD ip false
+        | none => false
+      ps' := ps'.set! i (Rtl.cycle pr.arch pr.prog (ps[i]!) { inputs, inValid, outRecv })
+    -- per bond: schedule read off the net, completions, abstract protocol, comparison
+    let mut hs' := hs
+    for bi in [0:B] do
+      let b := st.bonds[bi]!
+      let prod := ps[b.pp]!
+      let prod' := ps'[b.pp]!
+      let wantP := b.ioP.contains prod.pc
+      let wantC := (List.range b.cons.length).map fun j =>
+        let (c, _) := b.cons.getD j (0, 0)
+        (b.ioC.getD j []).contains (ps[c]!).pc
+      if wantP && prod'.pc != prod.pc then
+        written := written.modify bi (· ++ [prod'.auxo.getD b.op 0])
+      for j in [0:b.cons.length] do
+        let (c, _) := b.cons.getD j (0, 0)
+        let cs := ps[c]!
+        let cs' := ps'[c]!
+        if (b.ioC.getD j []).contains cs.pc && cs'.pc != cs.pc then
+          got := got.modify bi fun g => g.modify j (· ++ [cs'.regs.getD (destReg (st.procs[c]!) cs.pc) 0])
+      let h' := Hs.Rtl.step (hs[bi]!) { p := wantP, c := wantC }
+      hs' := hs'.set! bi h'
+      let nv := prod'.oVal.getD b.op false
+      let nw := prod'.waitsm && b.ioP.contains prod'.pc
+      let nrecv := b.cons.map fun (c, ip) => (ps'[c]!).iRecv.getD ip false
+      let ngot := (List.range b.cons.length).map fun j => ((got[bi]!)[j]!).length
+      if nv != h'.oVal || nw != h'.waitsm || nrecv != h'.cs.map (·.recv) ||
+         (written[bi]!).length != h'.sent.length || ngot != h'.cs.map (·.got.length) then
+        return [s!"RT mismatch clock={t} bond={bi} net: v={nv} w={nw} r={joinB nrecv} sent={(written[bi]!).length} got={joinN ngot}" ++
+                s!" | abstract: v={h'.oVal} w={h'.waitsm} r={joinB (h'.cs.map (·.recv))} sent={h'.sent.length} got={joinN (h'.cs.map (·.got.length))}"]
     ps := ps'
     hs := hs'
-  return [s!"RT ok clocks={st.ticks} written={joinN written}"] ++
-    (List.range k).map fun i => s!"RR {i + 1} {joinN (got[i + 1]!)}"
+  let mut res := [s!"RT ok clocks={st.ticks}"]
+  for bi in [0:B] do
+    res := res ++ [s!"RW {bi} {joinN (written[bi]!)}"]
+    for j in [0:(st.bonds[bi]!).cons.length] do
+      res := res ++ [s!"RR {bi} {j} {joinN ((got[bi]!)[j]!)}"]
+  return res
 
 def sget (st : State) (o : Option Nat) : Nat := match o with | some i => st.get i | none => 0
+def sgetL (st : State) (l : List (Option Nat)) (j : Nat) : Nat := sget st (l.getD j none)
 
 /-- the same net built from the EMITTED Verilog of each processor under BMV.Vlog, wired as
     Write_verilog_main wires a bond (valid/data forward, received = AND backward) -/
 def vlogNet (st : St) : List String := Id.run do
-  let k := st.k
+  let P := st.procs.size
+  let B := st.bonds.size
   let mut hws : Array Hw := #[]
-  for i in [0:k + 1] do
+  for i in [0:P] do
     match (st.procs[i]!).hw with
     | some h => hws := hws.push h
     | none => return [s!"VT unavailable processor {i}: {(st.procs[i]!).hwErr}"]
   let mut sts : Array State := #[]
-  for i in [0:k + 1] do
+  for i in [0:P] do
     let h := hws[i]!
     match (do let s0 ← h.d.init; h.d.cycle h.clk s0 [(h.reset, 1)]) with
     | .ok s => sts := sts.push s
     | .error e => return [s!"VT unavailable reset of processor {i}: {e}"]
-  let p0 := st.procs[0]!
-  let mut hs : Hs.Rtl.St := Hs.Rtl.init k
-  let mut written : List Nat := []
-  let mut got : Array (List Nat) := Array.replicate (k + 1) []
+  let mut hs : Array Hs.Rtl.St := st.bonds.map fun b => Hs.Rtl.init b.cons.length
+  let mut written : Array (List Nat) := Array.replicate B []
+  let mut got : Array (Array (List Nat)) := st.bonds.map fun b => Array.replicate b.cons.length []
+  let dump := fun (written : Array (List Nat)) (got : Array (Array (List Nat))) => Id.run do
+    let mut res : List String := []
+    for bi in [0:B] do
+      res := res ++ [s!"VW {bi} {joinN (written[bi]!)}"]
+      for j in [0:(st.bonds[bi]!).cons.length] do
+        res := res ++ [s!"VR {bi} {j} {joinN ((got[bi]!)[j]!)}"]
+    return res
   for t in [0:st.ticks] do
-    let ph := hws[0]!
-    let ps := sts[0]!
-    let valid := sget ps ph.oval
-    let data := sget ps ph.auxo
-    let received := k > 0 && (List.range k).all fun i => sget (sts[i + 1]!) (hws[i + 1]!).irecv != 0
-    let ppc := ps.get ph.pc
-    let wantP := p0.io.contains ppc
-    let wantC := (List.range k).map fun i => (st.procs[i + 1]!).io.contains ((sts[i + 1]!).get (hws[i + 1]!).pc)
-    let pin := [(ph.reset, 0)] ++ (match ph.orecv with | some i => [(i, if received then 1 else 0)] | none => [])
-    let ps' ← match ph.d.cycle ph.clk ps pin with
-      | .ok s => pure s
-      | .error e => return [s!"VT mismatch clock={t} producer evaluation error: {e}"]
-    let mut sts' := sts.set! 0 ps'
-    for i in [0:k] do
-      let h := hws[i + 1]!
-      let c := sts[i + 1]!
-      let pr := st.procs[i + 1]!
-      let cin := [(h.reset, 0)] ++ (match h.inp with | some j => [(j, data)] | none => []) ++
-        (match h.ival with | some j => [(j, valid)] | none => [])
-      let c' ← match h.d.cycle h.clk c cin with
-        | .ok s => pure s
-        | .error e => return [s!"VT mismatch clock={t} consumer {i + 1} evaluation error: {e}"]
-      sts' := sts'.set! (i + 1) c'
-      let cpc := c.get h.pc
-      if pr.io.contains cpc && c'.get h.pc != cpc then
-        got := got.modify (i + 1) (· ++ [c'.get (h.regs.getD (destReg pr cpc) 0)])
-    if wantP && ps'.get ph.pc != ppc then written := written ++ [sget ps' ph.auxo]
-    let hs' := Hs.Rtl.step hs { p := wantP, c := wantC }
-    let nv := sget ps' ph.oval != 0
-    let nw := sget ps' ph.waitsm != 0
-    let nrecv := (List.range k).map fun i => sget (sts'[i + 1]!) (hws[i + 1]!).irecv != 0
-    let ngot := (List.range k).map fun i => (got[i + 1]!).length
-    if nv != hs'.oVal || nw != hs'.waitsm || nrecv != hs'.cs.map (·.recv) ||
-       written.length != hs'.sent.length || ngot != hs'.cs.map (·.got.length) then
-      return [s!"VT mismatch clock={t} emitted: v={nv} w={nw} r={joinB nrecv} sent={written.length} got={joinN ngot}" ++
-              s!" | abstract: v={hs'.oVal} w={hs'.waitsm} r={joinB (hs'.cs.map (·.recv))} sent={hs'.sent.length} got={joinN (hs'.cs.map (·.got.length))}"] ++
-             [s!"VW {joinN written}"] ++ (List.range k).map fun i => s!"VR {i + 1} {joinN (got[i + 1]!)}"
+    let mut sts' := sts
+    for i in [0:P] do
+      let h := hws[i]!
+      let pr := st.procs[i]!
+      let mut pins : List (Nat × Nat) := [(h.reset, 0)]
+      for j in [0:pr.arch.n] do
+        let (data, valid) := match bondOfInput st i j with
+          | some b => (sgetL (sts[b.pp]!) (hws[b.pp]!).auxo b.op, sgetL (sts[b.pp]!) (hws[b.pp]!).oval b.op)
+          | none => (0, 0)
+        match h.inp.getD j none with | some k => pins := pins ++ [(k, data)] | none => pure ()
+        match h.ival.getD j none with | some k => pins := pins ++ [(k, valid)] | none => pure ()
+      for o in [0:pr.arch.m] do
+        let received := match bondOfOutput st i o with
+          | some b => !b.cons.isEmpty && b.cons.all fun (c, ip) => sgetL (sts[c]!) (hws[c]!).irecv ip != 0
+          | none => false
+        match h.orecv.getD o none with | some k => pins := pins ++ [(k, if received then 1 else 0)] | none => pure ()
+      match h.d.cycle h.clk (sts[i]!) pins with
+      | .ok s => sts' := sts'.set! i s
+      | .error e => return [s!"VT mismatch clock={t} processor {i} evaluation error: {e}"]
+    let mut hs' := hs
+    for bi in [0:B] do
+      let b := st.bonds[bi]!
+      let ph := hws[b.pp]!
+      let ppc := (sts[b.pp]!).get ph.pc
+      let ppc' := (sts'[b.pp]!).get ph.pc
+      let wantP := b.ioP.contains ppc
+      let wantC := (List.range b.cons.length).map fun j =>
+        let (c, _) := b.cons.getD j (0, 0)
+        (b.ioC.getD j []).contains ((sts[c]!).get (hws[c]!).pc)
+      if wantP && ppc' != ppc then
+        written := written.modify bi (· ++ [sgetL (sts'[b.pp]!) ph.auxo b.op])
+      for j in [0:b.cons.length] do
+        let (c, _) := b.cons.getD j (0, 0)
+        let h := hws[c]!
+        let cpc := (sts[c]!).get h.pc
+        if (b.ioC.getD j []).contains cpc && (sts'[c]!).get h.pc != cpc then
+          got := got.modify bi fun g => g.modify j (· ++ [(sts'[c]!).get (h.regs.getD (destReg (st.procs[c]!) cpc) 0)])
+      let h' := Hs.Rtl.step (hs[bi]!) { p := wantP, c := wantC }
+      hs' := hs'.set! bi h'
+      let nv := sgetL (sts'[b.pp]!) ph.oval b.op != 0
+      let nw := sget (sts'[b.pp]!) ph.waitsm != 0 && b.ioP.contains ppc'
+      let nrecv := b.cons.map fun (c, ip) => sgetL (sts'[c]!) (hws[c]!).irecv ip != 0
+      let ngot := (List.range b.cons.length).map fun j => ((got[bi]!)[j]!).length
+      if nv != h'.oVal || nw != h'.waitsm || nrecv != h'.cs.map (·.recv) ||
+         (written[bi]!).length != h'.sent.length || ngot != h'.cs.map (·.got.length) then
+        return [s!"VT mismatch clock={t} bond={bi} emitted: v={nv} w={nw} r={joinB nrecv} sent={(written[bi]!).length} got={joinN ngot}" ++
+                s!" | abstract: v={h'.oVal} w={h'.waitsm} r={joinB (h'.cs.map (·.recv))} sent={h'.sent.length} got={joinN (h'.cs.map (·.got.length))}"] ++
+               dump written got
     sts := sts'
     hs := hs'
-  return [s!"VT ok clocks={st.ticks}", s!"VW {joinN written}"] ++
-    (List.range k).map fun i => s!"VR {i + 1} {joinN (got[i + 1]!)}"
+  return [s!"VT ok clocks={st.ticks}"] ++ dump written got
 
 def step (st : St) (line : String) : St × List String :=
   if line.startsWith "M " && (line.splitOn " ").getD 2 "" == "H" then
@@ -206,30 +268,61 @@ def step (st : St) (line : String) : St × List String :=
   else
   let fs := fields line
   match fs with
-  | ["N", k] => ({ k := nat! k, isa := Hs.Isa.init (nat! k) }, [line])
+  | "N" :: _ => ({}, [line])
   | "M" :: i :: "A" :: rest =>
     match parseArch rest with
     | some a => (setProc st (nat! i) fun p => { p with arch := a }, [])
     | none => (st, ["bad-arch"])
   | "M" :: _ :: "S" :: _ => (st, [])
   | "M" :: i :: "P" :: ws => (setProc st (nat! i) fun p => { p with prog := ws.map ofString01 }, [])
-  | ["M", i, "IO", l] => (setProc st (nat! i) fun p => { p with io := nats l }, [])
-  | ["M", i, "IO"] => (setProc st (nat! i) fun p => { p with io := [] }, [])
+  | ["B", b, pp, op, cl] =>
+    let pidx := fun (x : String) => if x == "e" then envP else nat! x
+    let cons := (commaList cl).map fun c =>
+      match c.splitOn ":" with
+      | [x, y] => (pidx x, nat! y)
+      | _ => (0, 0)
+    let st' := setBond st (nat! b) fun _ => { pp := pidx pp, op := nat! op, cons, ioC := cons.map fun _ => [] }
+    ({ st' with isa := st'.bonds.map fun bd => Hs.Isa.init bd.cons.length }, [])
+  | "IO" :: b :: who :: rest =>
+    let pcs := nats (rest.getD 0 "")
+    match who.splitOn ":" with
+    | [c, ip] =>
+      (setBond st (nat! b) fun bd =>
+        match bd.cons.findIdx? (· == (nat! c, nat! ip)) with
+        | some j => { bd with ioC := bd.ioC.set j pcs }
+        | none => bd, [])
+    | _ => (setBond st (nat! b) fun bd => { bd with ioP := pcs }, [])
   | "T" :: _ => (st, [line])
   | "D" :: _ => (st, [line])
   | "G" :: rest =>
     let pre := nats ((kv rest "pre").getD "")
     -- a processor inside a simulated latency (DelayCounter > 0) executes nothing in this tick
     let dl := nats ((kv rest "dl").getD "")
-    let wantP := (st.procs[0]!).io.contains (pre.getD 0 0) && dl.getD 0 0 == 0
-    let wantC := (List.range st.k).map fun i => (st.procs[i + 1]!).io.contains (pre.getD (i + 1) 0) && dl.getD (i + 1) 0 == 0
-    let s' := Hs.Isa.step st.isa { p := wantP, c := wantC }
-    let ps := s'.sent.length != st.isa.sent.length
-    let cs := (s'.cs.zip st.isa.cs).map fun (a, b) => a.got.length != b.got.length
-    ({ st with isa := s', ticks := st.ticks + 1 },
-      [s!"g v={if s'.valid then 1 else 0} r={joinB (s'.cs.map (·.recv))} df={joinB (s'.cs.map (·.deferred))} ps={if ps then 1 else 0} cs={joinB cs} n={s'.sent.length}"])
-  | "W" :: _ => (st, [line] ++ rtlNet st ++ vlogNet st)
+    let atIO := fun (p : Nat) (io : List Nat) => io.contains (pre.getD p 0) && dl.getD p 0 == 0
+    -- the environment's ends: whether it acts in this tick is its own (arbitrary) choice, read off the run
+    let bits := fun (key : String) => (commaList ((kv rest key).getD "")).map (· == "1")
+    let isa' := (Array.range st.bonds.size).map fun bi =>
+      let b := st.bonds[bi]!
+      let wcEnv := bits s!"wc{bi}"
+      let wantC := (List.range b.cons.length).map fun j =>
+        let c := (b.cons.getD j (0, 0)).1
+        if c == envP then wcEnv.getD j false else atIO c (b.ioC.getD j [])
+      let wantP := if b.pp == envP then (bits s!"wp{bi}").getD 0 false else atIO b.pp b.ioP
+      Hs.Isa.step (st.isa[bi]!) { p := wantP, c := wantC }
+    let outs := (List.range st.bonds.size).map fun bi =>
+      let s := st.isa[bi]!
+      let s' := isa'[bi]!
+      let ps := s'.sent.length != s.sent.length
+      let cs := (s'.cs.zip s.cs).map fun (a, b) => a.got.length != b.got.length
+      s!"v{bi}={if s'.valid then 1 else 0} r{bi}={joinB (s'.cs.map (·.recv))} ps{bi}={if ps then 1 else 0} cs{bi}={joinB cs} n{bi}={s'.sent.length}"
+    ({ st with isa := isa', ticks := st.ticks + 1 }, ["g " ++ " ".intercalate outs])
+  | "W" :: _ => (st, [line])
   | "R" :: _ => (st, [line])
+  | ["E"] =>
+    -- nets with ends in the environment: the top-level wiring of external ports is C02's subject,
+    -- the hardware nets here are built from processors only
+    if st.bonds.any fun b => b.pp == envP || b.cons.any (·.1 == envP) then (st, ["RT skipped environment", "VT skipped environment"])
+    else (st, rtlNet st ++ vlogNet st)
   | _ => (st, [])
 
 def main : IO Unit := do
